@@ -21,6 +21,7 @@ static std::string same_key(const KeySpec &a, const KeySpec &b) {
   if (a.kind == K_OCT) return a.oct == b.oct ? "" : "oct-bytes-differ";
   bool privs = a.name == "priv" && b.name == "priv";
   if (a.kind == K_RSA) { for (auto n : {OSSL_PKEY_PARAM_RSA_N, OSSL_PKEY_PARAM_RSA_E}) if (pkey_bn(a.pkey, n) != pkey_bn(b.pkey, n)) return std::string("rsa-") + n;
+    if (EVP_PKEY_is_a(a.pkey, "RSA-PSS") != EVP_PKEY_is_a(b.pkey, "RSA-PSS")) return "rsa-vs-rsa-pss-key-type";   // "writes back the identical key": an id-RSASSA-PSS key stays one
     if (privs) for (auto n : {OSSL_PKEY_PARAM_RSA_D, OSSL_PKEY_PARAM_RSA_FACTOR1, OSSL_PKEY_PARAM_RSA_FACTOR2, OSSL_PKEY_PARAM_RSA_EXPONENT1, OSSL_PKEY_PARAM_RSA_EXPONENT2, OSSL_PKEY_PARAM_RSA_COEFFICIENT1}) if (pkey_bn(a.pkey, n) != pkey_bn(b.pkey, n)) return std::string("rsa-") + n; return ""; }
   if (a.kind == K_EC) { int w = (a.bits + 7) / 8; if (a.crv != b.crv) return "curve"; if (pkey_bn(a.pkey, OSSL_PKEY_PARAM_EC_PUB_X, w) != pkey_bn(b.pkey, OSSL_PKEY_PARAM_EC_PUB_X, w)) return "x"; if (pkey_bn(a.pkey, OSSL_PKEY_PARAM_EC_PUB_Y, w) != pkey_bn(b.pkey, OSSL_PKEY_PARAM_EC_PUB_Y, w)) return "y";
     if (privs && pkey_bn(a.pkey, OSSL_PKEY_PARAM_PRIV_KEY, w) != pkey_bn(b.pkey, OSSL_PKEY_PARAM_PRIV_KEY, w)) return "d"; return ""; }
@@ -81,7 +82,8 @@ int main(int argc, char **argv) {
   if (cmd == "token" && argc >= 5) {   // token <keyfile|-> <alg|none> <payload-json>  -> validly signed token
     std::string alg = argv[3]; KeySpec k; if (strcmp(argv[2], "-")) k = load_any(argv[2]);
     jwt_alg_t a = alg == "none" ? JWT_ALG_NONE : alg_by_name(alg) ? alg_by_name(alg)->alg : JWT_ALG_INVAL; if (a == JWT_ALG_INVAL) return 2;
-    printf("%s\n", ref_token(k, a, std::string("{\"alg\":\"") + alg + "\",\"typ\":\"JWT\"}", argv[4]).c_str()); return 0; }
+    std::string kid = argc >= 6 ? std::string(",\"kid\":\"") + argv[5] + "\"" : std::string();   // optional: shifts the header length
+    printf("%s\n", ref_token(k, a, std::string("{\"alg\":\"") + alg + "\",\"typ\":\"JWT\"" + kid + "}", argv[4]).c_str()); return 0; }
   if (cmd == "valid" && argc >= 4) { KeySpec k = load_any(argv[2]); bool ok = ref_valid(k, argv[3]); printf("%s\n", ok ? "valid" : "invalid"); return ok ? 0 : 1; }
   return 2;
 }
